@@ -102,6 +102,7 @@ class Explorer:
     async def caller_main(self, c):
         import anyio
         c.state = "running"
+        simnet.CUR_CALLER.set(c.idx)        # network operations record which caller performs them
         ext = {}
         if c.pool_timeout is not None:
             ext["timeout"] = {"pool": c.pool_timeout}
@@ -368,7 +369,10 @@ async def random_schedule(ex, spawn, settle):
             mode = "scope"
             if ex.runtime == "asyncio" and cfg.get("native_cancel") and rng.random() < 0.5:
                 mode = "native"
-            ex.trace.append(("cancel", c.idx, mode))
+            # is some *other* caller in the middle of establishing a connection (the cancelled one may merely be waiting for it)?
+            shared = any(p.rec["op"] in ("connect_tcp", "start_tls") and p.rec.get("caller") not in (None, c.idx)
+                         for p in ex.net.pending if not p.done)
+            ex.trace.append(("cancel", c.idx, mode, "while-another-caller-establishes" if shared else "-"))
             if mode == "scope" and c.scope is not None:
                 c.scope.cancel()
             elif mode == "native" and c.task is not None:
@@ -567,7 +571,8 @@ def signature_of(clause, detail, cfg, ex):
     if clause == "C04:streams-exceed-limit":
         first_tls = next((i for i, t in enumerate(ex.trace) if t[0] == "ok" and t[1] == "start_tls"), len(ex.trace))
         first_cancel = next((i for i, t in enumerate(ex.trace) if t[0] == "cancel"), None)
-        sig["pattern"] = "cancel-during-shared-establishment" if (first_cancel is not None and first_cancel < first_tls and cfg.get("http2")) else "other"
+        shared = any(t[0] == "cancel" and len(t) > 3 and t[3] == "while-another-caller-establishes" for t in ex.trace)
+        sig["pattern"] = "cancel-during-shared-establishment" if (cfg.get("http2") and (shared or (first_cancel is not None and first_cancel < first_tls))) else "other"
     if clause in ("C05:capacity-lost", "C07:caller-blocked-forever"):
         snap = detail.get("snapshot", {})
         sig["conn_states"] = sorted(set(state_of(i) for i in snap.get("conns", [])))
